@@ -527,11 +527,6 @@ class Input(object):
             if verify(transaction_hash, sig, key):
                 sigs_verified += 1
                 sig_n += 1
-            elif sig_n > 0:
-                # try previous signature
-                prev_sig = deepcopy(self.signatures[sig_n - 1])
-                if verify(transaction_hash, prev_sig, key):
-                    sigs_verified += 1
             key_n += 1
         self.valid = True
         return True
